@@ -73,14 +73,32 @@ def validate_sample(native, spec, sample):
 
 def confirm_violation(native, spec, v, is_pair=False):
     """replay a symbolic violation natively and judge the real outputs with the same oracle.
-    returns (confirmed?, case dict, description)"""
+    returns (confirmed?, case dict, description). The symbolic repeat timings of a template are not part of the key
+    constraints a path carries; when the first replay (distinct ordinary values) does not reproduce, the replay is repeated
+    with all timings equal and with zero timings - the violation may need exactly such a relation between them."""
+    first = None
+    ops_ = spec.opaques() if hasattr(spec, 'opaques') else []
+    cands = [None]
+    if ops_:
+        cands.append({o.name: (130 if o.name.startswith('delay') else 30) for o in ops_})
+        cands.append({o.name: 0 for o in ops_})
+    for ov in cands:
+        r = _confirm_once(native, spec, v, is_pair, ov)
+        if r[0]:
+            return r
+        if first is None:
+            first = r
+    return first
+
+
+def _confirm_once(native, spec, v, is_pair=False, opaque_vals=None):
     if is_pair:
         prop, what, ctx, h1, h2, trace, root = v
         hist = list(h1) + list(h2)
     else:
         prop, what, ctx, hist, trace, root = v
         h1, h2 = hist, []
-    c = mapper.concretise(spec, hist, trace)
+    c = mapper.concretise(spec, hist, trace, opaque_vals)
     if c is None:
         return False, None, 'unsat path condition for %s' % (what,)
     lay, ops, model = c
@@ -135,35 +153,53 @@ def run(tier, seed):
     root_nodes = {}
     skipped = []
     root_panics = {}
-    for i, spec in enumerate(specs):
+
+    def try_root(sp):
+        """-> ('ok', roots) | ('skip', why) | ('panic', RootPanic)"""
         try:
-            rs = mapper.make_root(spec, MAPPER_PROPS)
+            return 'ok', mapper.make_root(sp, MAPPER_PROPS)
         except Unsupported as e:
-            skipped.append((spec.name, str(e)))
-            continue
+            return 'skip', str(e)
         except mapper.RootPanic as e:
+            return 'panic', e
+    i = 0
+    while i < len(specs):
+        spec = specs[i]
+        st, rs = try_root(spec)
+        if st == 'ok' and len(rs) != 1 and '@' not in spec.name:
+            # Mapper::for_layout branches on symbolic values of the template (a tree that looks at the repeat timings or
+            # does arithmetic on key codes while building the mapper): the symbolic timings are replaced by a few
+            # concrete pairs (ordinary, zero, negative, largest), and if it still branches, the key symbols by one instance
+            variants = spec.with_numbers() if spec.opaques() else [spec]
+            done = []
+            for v in variants:
+                st2, rs2 = try_root(v)
+                if st2 == 'ok' and len(rs2) != 1 and v.sym_names():
+                    v = v.instantiate(random.Random(seed * 31 + i))
+                    st2, rs2 = try_root(v)
+                done.append((v, st2, rs2))
+            specs[i] = done[0][0]
+            for v, _, _ in done[1:]:
+                specs.append(v)
+            pre = {id(v): (st2, rs2) for v, st2, rs2 in done}
+            spec = specs[i]
+            st, rs = pre[id(spec)]
+            for v, st2, rs2 in done[1:]:
+                _PRE[id(v)] = (st2, rs2)
+        elif id(spec) in _PRE:
+            st, rs = _PRE.pop(id(spec))
+        if st == 'skip':
+            skipped.append((spec.name, rs))
+        elif st == 'panic':
             # an accepted layout on which Mapper::for_layout panics: a C14 matter, confirmed natively like every other panic
-            root_panics[i] = (spec, ('PANIC', e.what, 'None', [], e.trace, i))
-            continue
-        if len(rs) != 1 and spec.sym_names():
-            # Mapper::for_layout branches on the values of the template's key symbols (a tree that does arithmetic on key
-            # codes): explore one concrete instance of the template instead
-            try:
-                spec = spec.instantiate(random.Random(seed * 31 + i))
-                specs[i] = spec
-                rs = mapper.make_root(spec, MAPPER_PROPS)
-            except Unsupported as e:
-                skipped.append((spec.name, str(e)))
-                continue
-            except mapper.RootPanic as e:
-                root_panics[i] = (spec, ('PANIC', e.what, 'None', [], e.trace, i))
-                continue
-        if len(rs) != 1:
+            root_panics[i] = (spec, ('PANIC', rs.what, 'None', [], rs.trace, i))
+        elif len(rs) != 1:
             skipped.append((spec.name, 'for_layout forked on the template (%d roots)' % len(rs)))
-            continue
-        layout_v, node, it = rs[0]
-        roots[i] = (spec, layout_v)
-        root_nodes[i] = node
+        else:
+            layout_v, node, it = rs[0]
+            roots[i] = (spec, layout_v)
+            root_nodes[i] = node
+        i += 1
     opts = {'seed': seed, 'ra': True, 'sample_rate': 0.03 if tier == 'quick' else 0.01, 'pairN': B['pairN'],
             'z3_new_states': 0.25 if tier == 'quick' else 1.0}
     pool = mp.Pool(NCPU, initializer=mapper._w_init, initargs=(None, roots, opts))
@@ -177,6 +213,7 @@ def run(tier, seed):
             pass
 
 
+_PRE = {}
 STOP_PROP = os.environ.get('VERIF_SEEDTEST_STOP') or None      # never set by a registered check (results are not cached then)
 
 
